@@ -15,8 +15,16 @@ func ByName(a, b string) bool {
 func ByNameSmart(a, b string) bool {
 	v0, err0 := strconv.ParseFloat(a, 64)
 	v1, err1 := strconv.ParseFloat(b, 64)
-	if err0 == nil && err1 == nil {
-		return v0 < v1
+	switch {
+	case err0 == nil && err1 == nil:
+		if v0 != v1 {
+			return v0 < v1
+		}
+		return a < b // equal magnitude, different spelling ("1" / "1.0"): still one fixed order
+	case err0 == nil:
+		return true // numbers sort before text, so that mixed keys have one consistent order
+	case err1 == nil:
+		return false
 	}
 	return a < b
 }
